@@ -1,3 +1,4 @@
+//@inject src/exec/val.rs
 // E-K harnesses for src/exec/val.rs — scalar universe (Undefined, Null, Boolean, Number).
 // Injected at check time as `#[cfg(kani)] #[path = "..."] mod kani_val_scalar;` at the end of val.rs of a
 // scratch copy of /repo, so `super::*` reaches the private functions (`cmp_coerced`, `plus_coerced`, ...).
@@ -425,7 +426,7 @@ fn c07_c09__try_to_integer() {
 // ---------------------------------------------------------------- canaries (must FAIL: vacuity guard)
 #[kani::proof]
 #[kani::unwind(2)]
-fn canary__equals_wrong_table() {
+fn canary_c03_c14__equals_wrong_table() {
     let f: f64 = kani::any();
     let (va, vb) = (Val::Number(f), Val::Null);
     // deliberately wrong: claims `n is null` is always false
